@@ -142,8 +142,10 @@ def bounded_size(t, depth=0):
     if t[0] in ("havoc", "param"):
         return True   # usize cursors / lengths carried around loops; parameters of usize type are lengths here
     if t[0] == "field" and isinstance(t[1], tuple):
-        if t[1][0] == "downcast" and t[1][2] == "Some":
+        if t[1][0] == "downcast" and t[1][2] in ("Some", "Continue"):
             src = strip_refs(t[1][1])
+            if t[1][2] == "Continue" and is_call(src, "Try>::branch"):
+                src = strip_refs(call_args(src)[0])     # `x?`
             return is_call(src, "::find", "::rfind", "::position", "::rposition", "::next") or bounded_size(src, depth + 1)
         return bounded_size(t[1], depth + 1)
     if t[0] == "binop" and t[1] in ("Add", "Sub"):
@@ -273,6 +275,14 @@ def discharge(ctx, body, p, ev, kind):
                         and mentions(lp[1][1], lambda s: s == strip_refs(coll)) and is_call(hp, "::len") and (strip_refs(call_args(hp)[0]) == strip_refs(coll) or mentions(coll, lambda s: s == strip_refs(call_args(hp)[0]))):
                     return "G6-suffix-from-position"
             return None
+        if (last == "index" and ("for str" in nm or "String" in nm)) or (last == "split_at" and "str" in nm):
+            # any slicing of a string at 0 / len / a position found by searching that string (+ the separator's length)
+            if last == "split_at":
+                probe = ("field", ev.term, 0, "")
+            else:
+                probe = ev.term
+            if substr_in_bounds(substr(probe)):
+                return "G6-substring-at-searched-positions"
         if last == "split_at" and "str" in nm:
             s, at = strip_refs(ev.args[0]), ev.args[1]
             sp_ = search_pos(at)
@@ -335,6 +345,7 @@ def required_rules_failing(ctx, prop, rules):
         mod = importlib.import_module("rules." + prop.lower())
         sub = Ctx(prop, ctx.tier, ctx.fx)
         sub.inline_set = ctx.inline_set
+        sub.desugar = bool(getattr(mod, "DESUGAR", False))
         try:
             mod.run(sub)
             _REQ_CACHE[ck] = [r for r in sub.records if r.verdict == "violation"]
@@ -443,8 +454,13 @@ def run(ctx):
     from check import Ctx
     sub = Ctx("C07", ctx.tier, fx)
     sub.inline_set = ctx.inline_set
+    sub.desugar = bool(getattr(c07, "DESUGAR", False))
     c07.run(sub)
-    bad = [r for r in sub.records if r.verdict == "violation" and r.rule.startswith("D4-")]
+    # only the rules that bear on WHICH KIND of value sits under a variable; rules about the value itself (payload unaltered, overwritten
+    # rather than kept, appended in order, returned through views) cannot make a stored kind disagree with its variable
+    NOT_KIND = ("D4-PAYLOAD",)
+    NOT_KIND_INST = ("returns-payload-", "has-some-path", "append", "overwrite-")
+    bad = [r for r in sub.records if r.verdict == "violation" and r.rule.startswith("D4-") and r.rule not in NOT_KIND and not any(r.instance.startswith(x) for x in NOT_KIND_INST)]
     for (key, inst, bb) in summary_internal:
         b = ctx.body(key)
         ctx.check(not bad, "PANIC-INTERNAL", key, inst, "unreachable: values are stored only with their variable's kind (C07 D4 rules hold: %d instances)" % len([r for r in sub.records if r.rule.startswith("D4-")]),
